@@ -27,7 +27,7 @@ CM = 'xdoctest.checker._check_match'
 
 
 def run(ctx):
-    for fn in (r1_only_under_flag, r2_exact_without_marker, r3_bounds_reach_scan):
+    for fn in (r1_only_under_flag, r2_exact_without_marker, r3_bounds_reach_scan, r4_split_pattern):
         ctx.rep.rule(fn, ctx)
 
 
@@ -200,6 +200,44 @@ def r3_bounds_reach_scan(ctx):
                'the scan can run although the anchored prefix and suffix overlap (as in want "aa...aa", got "aaa")', anchor=EM)
 
 
+def r4_split_pattern(ctx):
+    """the want is cut at the marker together with the whitespace around it; the pieces are literal text"""
+    import re as _re
+    from .. import consts
+    rep = ctx.rep
+    f = ctx.func(EM)
+    fold = consts.Folder(ctx.prog)
+    splits = [c for c in ast.walk(f.node) if isinstance(c, ast.Call) and ast.unparse(c.func) in ('re.split',)]
+    need(len(splits) == 1, 'C06.R4: re.split of the want not found')
+    c = splits[0]
+    try:
+        pat = fold.fold(f.module, c.args[0], None, f)
+    except consts.NotConstant as ex:
+        raise AnalysisError('C06.R4: split pattern not foldable: %s' % ex)
+    marker = fold.module_const('xdoctest.checker', 'ELLIPSIS_MARKER')
+    rx = consts.Regex(pat, 0)
+    items = rx.items
+    ok = False
+    if len(items) == 2 + len(marker):
+        r0 = consts.repeat_of(items[0])
+        r1 = consts.repeat_of(items[-1])
+        lit = consts.literal_prefix(items[1:-1])
+        def ws(r):
+            if not r or r[0] != 0 or r[1] != consts.MAXREPEAT or len(r[2]) != 1:
+                return False
+            cs = consts.item_charset(r[2][0])
+            return cs is not None and {32, 9, 10} <= cs and ord('a') not in cs and ord('.') not in cs
+        ok = ws(r0) and ws(r1) and lit == marker
+    rep.ob('C06.R4', ctx.loc(f, c), 'split pattern %r' % pat, ok,
+           'the want is cut at every literal marker, absorbing only the whitespace around it' if ok else
+           'the split pattern is not  \\s* <escaped marker> \\s*  : other characters are absorbed or the marker is treated as a regex', anchor=EM)
+    ok2 = is_name(c.args[1], f.node.args.args[1].arg) if len(c.args) > 1 else False
+    rep.ob('C06.R4', ctx.loc(f, c), 'the want (not the got) is split', ok2, ctx.src(c, 80), nontrivial=False, anchor=EM)
+    # the pieces are used as literal text (find / startswith / endswith), never as patterns
+    used_as_regex = [x for x in ast.walk(f.node) if isinstance(x, ast.Call) and ast.unparse(x.func) in ('re.search', 're.match', 're.findall', 're.fullmatch', 're.compile') ]
+    rep.ob('C06.R4', ctx.loc(f, f.node), 'pieces compared as literal text', not used_as_regex, 'no regex matching of pieces' if not used_as_regex else 'pieces of the want are interpreted as regular expressions', nontrivial=False, anchor=EM)
+
+
 # ---------------------------------------------------------------------------
 from ..selftest import fire, silent      # noqa: E402
 
@@ -215,6 +253,8 @@ VARIANTS = [
     fire('ellipsis-flag-ignored', 'C06.R1', (CK, "    if runstate['ELLIPSIS']:\n        if _ellipsis_match(got, want):\n", "    if runstate['ELLIPSIS'] or True:\n        if _ellipsis_match(got, want):\n")),
     fire('no-marker-startswith', 'C06.R2', (CK, "    if ELLIPSIS_MARKER not in want:\n        return want == got\n", "    if ELLIPSIS_MARKER not in want:\n        return got.startswith(want)\n")),
     fire('no-marker-test-dropped', 'C06.R2', (CK, "    if ELLIPSIS_MARKER not in want:\n        return want == got\n", "")),
+    fire('marker-not-escaped', 'C06.R4', (CK, "    ws = re.split(r'\\s*{}\\s*'.format(re.escape(ELLIPSIS_MARKER)), want,\n", "    ws = re.split(r'\\s*{}\\s*'.format(ELLIPSIS_MARKER), want,\n")),
+    fire('split-absorbs-punctuation', 'C06.R4', (CK, "    ws = re.split(r'\\s*{}\\s*'.format(re.escape(ELLIPSIS_MARKER)), want,\n", "    ws = re.split(r'\\W*{}\\W*'.format(re.escape(ELLIPSIS_MARKER)), want,\n")),
     silent('bounds-via-slice', (CK, "        startpos = got.find(w, startpos, endpos)\n", "        startpos = got.find(w, startpos, endpos) if w else startpos\n")),
     silent('overlap-guard-rephrased', (CK, "    if startpos > endpos:\n", "    if endpos < startpos:\n")),
     silent('marker-test-positive-form', (CK, "    if ELLIPSIS_MARKER not in want:\n        return want == got\n", "    if not (ELLIPSIS_MARKER in want):\n        return got == want\n")),
